@@ -56,6 +56,10 @@ pub open spec fn py_inner(t: Seq<char>, f: RustField) -> Seq<char> { if f.has_de
 pub open spec fn py_annotated(inner: Seq<char>, de: Seq<char>, ser: Seq<char>) -> Seq<char> {
     "Annotated["@ + inner + ", BeforeValidator("@ + de + "), PlainSerializer("@ + ser + ")]"@
 }
+/// TypeScript: the payload of a newtype variant (`content?: T | null`) - a member without a field: optional exactly when the payload type is Option<T>
+pub open spec fn ts_payload(key: Seq<char>, t: Seq<char>, ty: RustType) -> Seq<char> {
+    key + mark(is_opt(ty), "?"@) + ": "@ + t + mark(is_double_opt(ty), " | null"@)
+}
 /// Go: the struct tag carries `,omitempty` exactly for optional members
 pub open spec fn go_tag(key: Seq<char>, f: RustField) -> Seq<char> { " `json:\""@ + key + mark(optional(f), ",omitempty"@) + "\"`"@ }
 
